@@ -158,7 +158,7 @@ theorem GoodPipe_permute {a : ArrS} (h : WFP a) (transp : List Nat) (hp : transp
 
 theorem WFP_combineWithPipes {a b : ArrS} {groups : List (List Nat)} {newAxes : Option (List Int)}
     {pipes : List Pipe} (h : WFP a) (hgood : ∀ x ∈ groups.zip pipes, GoodPipe a x.1 x.2)
-    (hb : a.combineWithPipes groups newAxes pipes = some b) : WFP b := by
+    (hb : a.combineWithPipes groups newAxes pipes = some b) : WFP b ∧ b.qtotal = a.qtotal := by
   unfold ArrS.combineWithPipes at hb
   split at hb
   · cases hb
@@ -203,6 +203,8 @@ theorem WFP_combineWithPipes {a b : ArrS} {groups : List (List Nat)} {newAxes : 
           · have ha' := WFP_permuteAxes h transp htp
             have hlen : transp.length = a.rank := by simpa using htp.length_eq
             have hp' : transp.Perm (List.range transp.length) := by rw [hlen]; exact htp
+            have hq' : (a.permuteAxes transp).qtotal = a.qtotal := rfl
+            rw [← hq']
             refine WFP_combineStd ha' (by simp) (by rw [hpl']; simp) ?_ ?_ hb
             · intro x hx
               rw [zip3_map_mid] at hx
